@@ -1,8 +1,8 @@
 import AlatorVerif.Model.PenDs
-import AlatorVerif.Driver.Uist
-import AlatorVerif.Driver.Jura
+import AlatorVerif.DriverX.Uist
+import AlatorVerif.DriverX.Jura
 namespace Drv.Srv
-open SV Drv
+open SV Drv DrvX
 
 /-- what the generic server driver needs to know about an exchange -/
 structure Adapter (E Q O D R : Type) where
@@ -156,15 +156,15 @@ def step (ad : Adapter E Q O D R) (v : Variant) (w : W E Q) (ts : List String) :
 def uistAd : Adapter (PU.Uist String Float) (UQ String Float) (PU.Order String Float) Nat (UR String Float) where
   ops := uistOps
   parseIns := fun t => match t with
-    | [ty, sym, sh, pr] => some (Drv.Uist.parseOrder ty sym sh pr)
-    | [ty, sym, sh, pr, id] => some { Drv.Uist.parseOrder ty sym sh pr with id := some id.toNat! }
+    | [ty, sym, sh, pr] => some (DrvX.Uist.parseOrder ty sym sh pr)
+    | [ty, sym, sh, pr, id] => some { DrvX.Uist.parseOrder ty sym sh pr with id := some id.toNat! }
     | _ => none
   parseDel := fun t => match t with | [id] => some id.toNat! | _ => none
   bufOf := fun e => e.buffer
   isSellO := PU.isSell
-  showR := fun r => s!"F {r.1.length} {joinSp (r.1.map Drv.Uist.showTrade)} ; A {r.2.length} {joinSp (r.2.map Drv.Uist.showOrder)}"
+  showR := fun r => s!"F {r.1.length} {joinSp (r.1.map DrvX.Uist.showTrade)} ; A {r.2.length} {joinSp (r.2.map DrvX.Uist.showOrder)}"
   panicR := fun _ => false
-  snap := Drv.Uist.snapshot
+  snap := DrvX.Uist.snapshot
   mkQuotes := fun l => fun sym => (l.find? (fun e => e.1 == sym)).map (fun e => ⟨e.2.1, e.2.2.1, e.2.2.2⟩)
   showQuotes := fun q syms =>
     let es := (syms.filterMap (fun s => (q s).map (fun x => (s, x))))
@@ -174,15 +174,15 @@ def uistAd : Adapter (PU.Uist String Float) (UQ String Float) (PU.Order String F
 def juraAd : Adapter (PJ.Jura Float) (JQ Float) (PJ.Order Float) (Nat × Nat) (JR Float) where
   ops := juraOps
   parseIns := fun t => match t with
-    | [asset, isBuy, lpx, sz, kind] => some ⟨asset.toNat!, isBuy == "1", f64 lpx, f64 sz, false, none, Drv.Jura.parseTyp kind⟩
-    | [asset, isBuy, lpx, sz, kind, x] => some ⟨asset.toNat!, isBuy == "1", f64 lpx, f64 sz, (Drv.Jura.extras x).1, (Drv.Jura.extras x).2, Drv.Jura.parseTyp kind⟩
+    | [asset, isBuy, lpx, sz, kind] => some ⟨asset.toNat!, isBuy == "1", f64 lpx, f64 sz, false, none, DrvX.Jura.parseTyp kind⟩
+    | [asset, isBuy, lpx, sz, kind, x] => some ⟨asset.toNat!, isBuy == "1", f64 lpx, f64 sz, (DrvX.Jura.extras x).1, (DrvX.Jura.extras x).2, DrvX.Jura.parseTyp kind⟩
     | _ => none
   parseDel := fun t => match t with | [asset, id] => some (asset.toNat!, id.toNat!) | _ => none
   bufOf := fun e => e.buffer
   isSellO := fun o => !o.isBuy
-  showR := fun r => s!"F {r.1.length} {joinSp (r.1.map Drv.Jura.showFill)} ; K {r.2.2.1.length} {joinSp (r.2.2.1.map toString)} ; N {r.2.1.length}"
+  showR := fun r => s!"F {r.1.length} {joinSp (r.1.map DrvX.Jura.showFill)} ; K {r.2.2.1.length} {joinSp (r.2.2.1.map toString)} ; N {r.2.1.length}"
   panicR := fun r => r.2.2.2
-  snap := Drv.Jura.snapshot
+  snap := DrvX.Jura.snapshot
   mkQuotes := fun l => fun a => (l.find? (fun e => e.1 == toString a)).map (fun e => ⟨e.2.1, e.2.2.1, e.2.2.2⟩)
   showQuotes := fun q syms =>
     let es := (syms.filterMap (fun s => (q s.toNat!).map (fun x => (s, x))))
